@@ -6,6 +6,7 @@ import (
 	"encoding/json"
 	"fmt"
 	"os"
+	"os/exec"
 	"path/filepath"
 	"regexp"
 	"sort"
@@ -37,6 +38,30 @@ type KnownEntry struct {
 	What         string `json:"what"`
 	Witness      string `json:"witness,omitempty"`
 	Commit       string `json:"commit,omitempty"`
+	// WitnessSet names a file under /verif/known/ listing (one 12-hex sha256 prefix per line) the exact inputs
+	// (Finding.Witness strings) for which this mechanism fails on the unchanged tree. When set, the entry only
+	// covers those inputs: the same mechanism on any OTHER input is reported as a violation.
+	WitnessSet string `json:"witness_set,omitempty"`
+	witnesses  map[string]bool
+}
+
+func witnessHash(w string) string {
+	h := sha256.Sum256([]byte(w))
+	return hex.EncodeToString(h[:])[:12]
+}
+
+func loadWitnessSet(name string) map[string]bool {
+	m := map[string]bool{}
+	b, err := os.ReadFile(filepath.Join("/verif/known", name))
+	if err != nil {
+		return m
+	}
+	for _, l := range strings.Split(string(b), "\n") {
+		if l = strings.TrimSpace(l); l != "" {
+			m[l] = true
+		}
+	}
+	return m
 }
 
 func loadKnown() []KnownEntry {
@@ -51,6 +76,11 @@ func loadKnown() []KnownEntry {
 		fmt.Println("known_findings.json is not valid JSON:", err)
 		os.Exit(2)
 	}
+	for i := range f.Findings {
+		if f.Findings[i].WitnessSet != "" {
+			f.Findings[i].witnesses = loadWitnessSet(f.Findings[i].WitnessSet)
+		}
+	}
 	return f.Findings
 }
 
@@ -62,10 +92,27 @@ func anchored(re, s string) bool {
 	return err == nil && ok
 }
 
-func (k *KnownEntry) matches(f *Finding) bool {
+// mechanism reports whether the finding has the entry's mechanism signature (kind, site, precondition).
+func (k *KnownEntry) mechanism(f *Finding) bool {
 	return k.Status == "known" && k.Property == f.Property && k.Kind == f.Kind && anchored(k.Site, f.Site) && anchored(k.Precondition, f.Pre) &&
 		(k.Detail == "" || regexp.MustCompile(k.Detail).MatchString(f.Detail))
 }
+
+// matches = mechanism signature AND (when the entry carries a witness set) the failing input is one of the listed ones.
+func (k *KnownEntry) matches(f *Finding) bool {
+	if !k.mechanism(f) {
+		return false
+	}
+	if k.WitnessSet == "" || refreshKnown() {
+		return true
+	}
+	return k.witnesses[witnessHash(f.Witness)]
+}
+
+// refreshKnown: maintenance mode (VERIF_KNOWN_REFRESH=1, never used by a registered check): the witness sets are
+// re-recorded from a run on the unchanged tree instead of being consulted.
+func refreshKnown() bool { return os.Getenv("VERIF_KNOWN_REFRESH") == "1" }
+
 
 // RunCtx carries one check run.
 type RunCtx struct {
@@ -117,6 +164,9 @@ func (rc *RunCtx) Finish() {
 			continue
 		}
 		viol = append(viol, *f)
+	}
+	if refreshKnown() {
+		rc.refreshWitnessSets(known)
 	}
 	var idx []int
 	for j := range knownHits {
@@ -201,9 +251,14 @@ func (rc *RunCtx) Finish() {
 		"wall_s":      time.Since(rc.Start).Seconds(),
 		"violations":  len(order),
 	}
-	_ = os.MkdirAll("/verif/evidence", 0o755)
+	// evidence describes /repo itself; a run against a scratch worktree (VERIF_REPO, development only) writes elsewhere
+	evDir := "/verif/evidence"
+	if os.Getenv("VERIF_REPO") != "" {
+		evDir = "/verif/work/scratch-evidence"
+	}
+	_ = os.MkdirAll(evDir, 0o755)
 	b, _ := json.MarshalIndent(ev, "", " ")
-	if err := os.WriteFile(filepath.Join("/verif/evidence", rc.ID+".json"), append(b, '\n'), 0o644); err != nil {
+	if err := os.WriteFile(filepath.Join(evDir, rc.ID+".json"), append(b, '\n'), 0o644); err != nil {
 		fmt.Println("cannot write evidence:", err)
 		os.Exit(2)
 	}
@@ -255,4 +310,46 @@ func pick[T any](xs []T, n int, seed int64) []T {
 		out = append(out, xs[(off+i*step)%len(xs)])
 	}
 	return out
+}
+
+// refreshWitnessSets merges the witnesses of this run's findings into the witness-set files of the entries whose
+// mechanism they match. Only on a clean /repo, only on request.
+func (rc *RunCtx) refreshWitnessSets(known []KnownEntry) {
+	if os.Getenv("VERIF_REPO") != "" || gitDirty() {
+		fmt.Println("known-refresh refused: /repo is not the clean committed tree")
+		os.Exit(2)
+	}
+	add := map[string]map[string]bool{}
+	for i := range rc.Findings {
+		f := &rc.Findings[i]
+		for j := range known {
+			if known[j].WitnessSet != "" && known[j].mechanism(f) {
+				if add[known[j].WitnessSet] == nil {
+					add[known[j].WitnessSet] = map[string]bool{}
+				}
+				add[known[j].WitnessSet][witnessHash(f.Witness)] = true
+				break
+			}
+		}
+	}
+	_ = os.MkdirAll("/verif/known", 0o755)
+	for name, set := range add {
+		old := loadWitnessSet(name)
+		n0 := len(old)
+		for h := range set {
+			old[h] = true
+		}
+		var ls []string
+		for h := range old {
+			ls = append(ls, h)
+		}
+		sort.Strings(ls)
+		_ = os.WriteFile(filepath.Join("/verif/known", name), []byte(strings.Join(ls, "\n")+"\n"), 0o644)
+		fmt.Printf("known-refresh: %s: %d witnesses this run, %d -> %d in file\n", name, len(set), n0, len(ls))
+	}
+}
+
+func gitDirty() bool {
+	out, err := exec.Command("git", "-C", "/repo", "status", "--porcelain").Output()
+	return err != nil || strings.TrimSpace(string(out)) != ""
 }
